@@ -7,6 +7,14 @@ import sys
 import esrv
 
 PROPS_V = "Props/C03.v"
+# functions the hand-written model of this property was written against (normalised source stored under harness/corr/guards/;
+# a difference is reported as broken-correspondence: the theorems then no longer speak about the current source)
+SOURCE_GUARDS = [
+    ("esr/generation/duplicate_checker.py", "main"),
+    ("esr/generation/simplifier.py", "do_sympy"),
+    ("esr/generation/simplifier.py", "check_results"),
+]
+
 TRANSLATORS = ["uniq", "cancel"]
 IMPL = os.path.join(esrv.VERIF, "harness", "corr", "c03_impl.py")
 
